@@ -330,7 +330,14 @@ func TestC02(t *testing.T) {
 				vals = append(vals, "${{ needs."+n+".result }}", "${{ jobs."+n+".outputs.x }}")
 			}
 			for _, n := range w.StepIDs {
-				vals = append(vals, "${{ steps."+n+".outcome }}")
+				vals = append(vals, "${{ steps."+n+".outcome }}", "${{ steps."+n+".outputs.x }}")
+			}
+			// object filters over contexts whose members have different shapes
+			vals = append(vals, "${{ needs.*.outputs.x }}", "${{ needs.*.result }}", "${{ steps.*.outputs.y }}", "${{ steps.*.outcome }}", "${{ jobs.*.outputs.z }}", "${{ matrix.*.k }}", "${{ inputs.*.x }}", "${{ github.*.sha }}", "${{ toJSON(needs.*.outputs) }}")
+			for _, j := range w.Jobs {
+				for _, o := range w.JobOutputs[j] {
+					vals = append(vals, "${{ needs.*.outputs."+o+" }}", "${{ jobs.*.outputs."+o+" }}")
+				}
 			}
 			ne := rapid.IntRange(1, 6).Draw(rt, "nerr")
 			for i := 0; i < ne && len(leaves) > 0; i++ {
